@@ -415,6 +415,53 @@ def check_core_isolation(ctx):
                 f"context, when check_b's constraints carry the AST ids freed by check_a ({how})", {"kind": "core-isolation"})
 
 
+def check_path_branch_isolation(ctx):
+    """Path.branch / Path.activate directly (they share ONE incremental solver through push/pop): a sibling forked from a path —
+    with a real condition or with the literal `true` (the unconditional forks made for a cheatcode's alternative return values)
+    — must not see what the parent path asserts after the fork, at any nesting depth and whatever the order of activation."""
+    from vlib.impl import use_repo
+
+    use_repo()
+    import z3
+    from halmos.__main__ import mk_solver
+    from halmos.config import default_config
+    from halmos.sevm import Path
+
+    args = default_config()
+    x, y = z3.BitVec("x", 256), z3.BitVec("y", 256)
+    rng = ctx.rng
+    conds = {"cond": lambda k: x != k + 100, "true": lambda k: z3.BoolVal(True), "y-cond": lambda k: z3.ULT(y, 50 + k)}
+    shapes = [("true",), ("cond",), ("true", "true"), ("cond", "true"), ("true", "cond"), ("true", "true", "y-cond"), ("y-cond", "true", "true")]
+    for shape in shapes:
+        for later in ("eq", "range"):
+            solver = mk_solver(args)
+            parent = Path(solver)
+            parent.append(z3.UGT(x, 0))
+            sibs = []
+            for k, kind in enumerate(shape):
+                sibs.append((kind, parent.branch(conds[kind](k))))
+                # the parent goes on and learns something about x after each fork
+                parent.append(x == 5 if later == "eq" and k == len(shape) - 1 else z3.ULT(x, 1000 - k))
+            ok_parent = parent.check(x == 7) == (z3.unsat if later == "eq" else z3.sat)
+            results = []
+            for kind, sib in reversed(sibs):        # DFS: the last fork is activated first
+                sib.activate()
+                leaked = [str(c) for c in sib.conditions if z3.eq(c, z3.simplify(x == 5))]
+                results.append((kind, str(sib.check(x == 7)), str(sib.check(x == 2000)), leaked))
+            solver.reset()
+            ctx.case(f"path-branch|{shape}|{later}")
+            ctx.count("path-branch:configurations")
+            # a sibling forked at step k knows x > 0 and x < 1000 - j for j < k only: x == 7 feasible; x == 2000 feasible only for k == 0
+            want7 = ["sat"] * len(sibs)
+            got7 = [r[1] for r in results]
+            if got7 != want7 or any(r[3] for r in results) or not ok_parent:
+                ctx.violation(
+                    f"path-sibling-sees-later-constraints-of-parent|fork:{'+'.join(shape)}",
+                    f"Path.branch with conditions {shape}, the parent then asserting {'x == 5' if later == 'eq' else 'x < 1000 - k'}: "
+                    f"siblings (activated last-forked first) answer check(x == 7) = {got7}, expected {want7}; leaked conditions "
+                    f"{[r[3] for r in results]}; parent ok: {ok_parent}", {"kind": "path-branch"})
+
+
 def check_sign_orders(ctx):
     """vm.sign / vm.addr across tests: several tests sign the same (key, digest) and assert what vm.sign promises together with
     the fresh signature terms (v == 27 || v == 28; ecrecover(digest, v, r, s) == vm.addr(key)). Each test alone, the same body
@@ -846,6 +893,21 @@ def check_siblings(ctx, n):
             name = f"sign:{nm}:{which}"
             scns.insert(0, Scenario({MAIN: A.assemble(A.if_then(A.calldata_arg(0), list(taken), list(fall)))}, nargs=3, name=name))
             sign_expect[name] = [1, 2]
+    # directed: unconditional forks. svm.createCalldata("C") returns one alternative per kind of calldata (empty, fallback, each
+    # function of C); the alternative that continues in the current path (the last function) then assumes x == 5; every other
+    # alternative, explored later, must still find x == 7 feasible.
+    from halmos.mapper import BuildOut
+    from vlib.artifacts import Fn, TestContract, make_build_out_map
+
+    cc = TestContract("C", [Fn("foo(uint256 a)", ["STOP"]), Fn("bar(uint256 b)", ["STOP"])])
+    bom, _built = make_build_out_map([cc])
+    name_arg = [[("push", 0x20)], [("push", 1)], [("push", int.from_bytes(b"C".ljust(32, b"\0"), "big"), 32)]]
+    cd = A.cheat_call(A.SVM_ADDRESS, A.selector("createCalldata(string)"), name_arg, ret_size=0x80)     # returned bytes at 0x280
+    sel_of_ret = [("push", 0x2C0), "MLOAD", ("push", 224), "SHR"]
+    xx = A.calldata_arg(0)
+    prog = cd + A.if_then(A.eq_const(sel_of_ret, A.selector("bar(uint256)")), A.vm_assume(A.eq_const(xx, 5))) + \
+        A.if_then(A.eq_const(xx, 7), ret1(7), ret1(9))
+    scns.insert(0, Scenario({MAIN: A.assemble(prog)}, nargs=1, name="uncond-fork:createCalldata"))
     total_wait = 0
     for k, scn in enumerate(scns):
         hits = []
@@ -855,11 +917,31 @@ def check_siblings(ctx, n):
 
         with worklist_probe(record):
             # the directed expectations are about feasibility: no 1 ms branching time-out there
-            sr = evmdiff.symbolic_run(scn, **({"solver_timeout_branching": 0} if (scn.name or "").startswith(("sign:", "prank:", "failing-callee")) else {}))
+            if scn.name == "uncond-fork:createCalldata":
+                BuildOut().set_build_out(bom)
+            try:
+                sr = evmdiff.symbolic_run(scn, **({"solver_timeout_branching": 0} if (scn.name or "").startswith(
+                    ("sign:", "prank:", "failing-callee", "uncond-fork")) else {}))
+            finally:
+                if scn.name == "uncond-fork:createCalldata":
+                    BuildOut().set_build_out({})
         ctx.case(f"sibling|{scn.name or k}|{len(sr.paths)}", nontrivial=len(hits) > 1)
         ctx.count("sibling:programs")
         ctx.count("sibling:waiting-states-checked", len(hits))
         ctx.count("sibling:paths", len(sr.paths))
+        if scn.name == "uncond-fork:createCalldata":
+            tags = []
+            for pth in sr.paths:
+                data = pth.data.unwrap() if pth.data is not None and len(pth.data) else b""
+                tags.append(int.from_bytes(data, "big") if isinstance(data, bytes) and len(data) == 32 and pth.kind == "success" else pth.kind)
+            ctx.count(f"sibling:uncond-fork:paths={sorted(map(str, tags))}")
+            # alternatives: empty calldata, fallback, foo, bar; bar assumes x == 5 (one path, tag 9); each other: tags 7 and 9
+            if sr.escaped or sorted(map(str, tags)) != sorted(map(str, [9, 7, 9, 7, 9, 7, 9])):
+                ctx.violation(
+                    "unconditional-fork-sibling-sees-later-constraints|createCalldata",
+                    f"program {scn.name}: paths end with tags {tags} (escaped {sr.escaped}); expected 7 and 9 for each of the three "
+                    f"alternatives that do not assume x == 5, and 9 for the one that does", {"kind": "sibling",
+                    "code": {hex(a): c.hex() for a, c in scn.contracts.items()}, "nargs": scn.nargs, "static": scn.static})
         if (scn.name or "") in sign_expect:
             tags = []
             for pth in sr.paths:
@@ -960,6 +1042,7 @@ def correspond(ctx):
     ctx.note(f"uid aliases patched: {names}")
     # fixed-cost parts first
     check_depth_warning(ctx)
+    check_path_branch_isolation(ctx)
     check_codehash_orders(ctx)
     check_sign_orders(ctx)
     check_core_isolation(ctx)
@@ -1006,6 +1089,8 @@ def replay(ctx, data) -> bool:
         check_uid(ctx, gen, base, d["seed"])
     elif d.get("kind") == "inv-orders":
         check_invariant_orders(ctx, d["seed"], d["tmpl"], d["depth"])
+    elif d.get("kind") == "path-branch":
+        check_path_branch_isolation(ctx)
     elif d.get("kind") == "sign-orders":
         check_sign_orders(ctx)
     elif d.get("kind") == "codehash":
